@@ -1,25 +1,182 @@
 (* Props/C10.v -- property C10: renumbering objects preserves the document graph.
-   placeholder: rung 1 (dense pass only); the full theorem set replaces this file. *)
+   Statements only; proofs live in Proofs/RenumberProofs{Map,Trav,,Dense,Page,Iter,Top,Main}.v.
+
+   Vocabulary (Spec/RenumberSpec.v, written from the property text):
+     rename rho o      the object o with every reference id replaced by its image under rho
+     reach tr m id     id is the target of a reference reachable from the trailer (whether or not it names an object)
+     used d id         id names an object, or is reachable, or is a bookmark target
+     sorted_keys m     representation invariant of BTreeMap (keys strictly increasing); every decoded document has it
+     fits start d      start + n <= 2^32: the numbers start .. start+n-1 exist in u32
+     KnownClass        open finding C10/dangling-in-range, decided on the input: some reachable reference or bookmark
+                       target names no object and its NUMBER lies in [start, start+n) *)
 From LV Require Import Base.Bytes Model.Obj Model.DocQ Model.PageTree Model.Traverse Model.Renumber Model.RenumberV0
-  Spec.RenumberSpec Proofs.RenumberProofsDense Proofs.RenumberProofsTop.
+  Spec.RenumberSpec Proofs.RenumberProofsTrav Proofs.RenumberProofsDense Proofs.RenumberProofsTop Proofs.RenumberProofsMain.
 
-Theorem C10_dense_pass_iso_partial :
+(* (1) Outside the known class, renumbering from ANY start value that fits terminates normally and changes
+   identifiers only: there is a renaming rho, one-to-one on the ids the document uses and onto the ids the
+   new document uses, under which the trailer, every reachable object and every bookmark target are the
+   originals with references renamed; an object that is used but unreachable (only a bookmark points to
+   it) is moved unchanged.  Hence (conjuncts 12-14) every reachable reference resolves to the same content,
+   a reference or bookmark target that resolved to nothing still resolves to nothing, and page order is
+   unchanged.  Both passes (page-order pass, dense pass) are covered. *)
+Theorem C10_renumber_iso :
   forall start d,
-  sorted_keys (d_objects (base d)) -> fits start d -> KnownClass start d = false ->
-  exists d' rho,
-    dense_pass start d = Done d' /\
-    inj_on (used d) rho /\
-    d_trailer (base d') = rename_dict rho (d_trailer (base d)) /\
-    (forall id, reach (d_trailer (base d)) (d_objects (base d)) id ->
-                lookup (d_objects (base d')) (rho id) = option_map (rename rho) (lookup (d_objects (base d)) id)) /\
-    (forall id, used d id -> ~ reach (d_trailer (base d)) (d_objects (base d)) id ->
-                lookup (d_objects (base d')) (rho id) = lookup (d_objects (base d)) id) /\
-    bm_table d' = renumber_bookmarks_with rho (bm_table d) /\
-    map fst (d_objects (base d')) = dense_ids (map fst (d_objects (base d))) start /\
-    d_max_id (base d') = dense_max d start /\
-    (forall x, reach (d_trailer (base d')) (d_objects (base d')) x <->
-               exists id, reach (d_trailer (base d)) (d_objects (base d)) id /\ x = rho id) /\
-    bookmarks d' = bookmarks d /\ d_version (base d') = d_version (base d) /\ d_binary_mark (base d') = d_binary_mark (base d).
-Proof. exact dense_pass_iso. Qed.
+    sorted_keys (d_objects (base d)) -> fits start d -> KnownClass start d = false ->
+    exists d' rho,
+      renumber_objects_with start d = Done d' /\
+      inj_on (used d) rho /\
+      (forall x, used d' x <-> exists id, used d id /\ x = rho id) /\
+      d_trailer (base d') = rename_dict rho (d_trailer (base d)) /\
+      (forall id, reach (d_trailer (base d)) (d_objects (base d)) id ->
+                  lookup (d_objects (base d')) (rho id) = option_map (rename rho) (lookup (d_objects (base d)) id)) /\
+      (forall id, used d id -> ~ reach (d_trailer (base d)) (d_objects (base d)) id ->
+                  lookup (d_objects (base d')) (rho id) = lookup (d_objects (base d)) id) /\
+      bm_table d' = renumber_bookmarks_with rho (bm_table d) /\
+      bookmarks d' = bookmarks d /\ max_bookmark_id d' = max_bookmark_id d /\
+      (forall x, reach (d_trailer (base d')) (d_objects (base d')) x <->
+                 exists id, reach (d_trailer (base d)) (d_objects (base d)) id /\ x = rho id) /\
+      (forall x, has_obj (d_objects (base d')) x <-> exists id, has_obj (d_objects (base d)) id /\ x = rho id) /\
+      (forall id o, reach (d_trailer (base d)) (d_objects (base d)) id -> lookup (d_objects (base d)) id = Some o ->
+                    lookup (d_objects (base d')) (rho id) = Some (rename rho o)) /\
+      (forall id, used d id -> lookup (d_objects (base d)) id = None -> lookup (d_objects (base d')) (rho id) = None) /\
+      page_iter (base d') = map rho (page_iter (base d)) /\
+      d_version (base d') = d_version (base d) /\ d_binary_mark (base d') = d_binary_mark (base d).
+Proof. exact renumber_iso. Qed.
 
-Print Assumptions C10_dense_pass_iso_partial.
+(* (2) Afterwards the object numbers are start, start+1, ..., start+n-1 (generations kept, in key order) and
+   max_id is the last one; for a document without objects max_id is the id before the first one that
+   would be assigned (0 for start 0). *)
+Theorem C10_renumber_dense :
+  forall start d,
+    sorted_keys (d_objects (base d)) -> fits start d -> KnownClass start d = false ->
+    exists d',
+      renumber_objects_with start d = Done d' /\
+      length (d_objects (base d')) = length (d_objects (base d)) /\
+      map fst (map fst (d_objects (base d'))) = nums_from start (length (d_objects (base d))) /\
+      map snd (map fst (d_objects (base d'))) = map snd (map fst (d_objects (base d))) /\
+      sorted_keys (d_objects (base d')) /\
+      (d_objects (base d) <> [] -> d_max_id (base d') = last (map fst (map fst (d_objects (base d')))) 0%N) /\
+      (d_objects (base d) <> [] -> d_max_id (base d') = (start + N.of_nat (length (d_objects (base d))) - 1)%N) /\
+      (d_objects (base d) = [] -> d_max_id (base d') = if (start =? 0)%N then 0%N else (start - 1)%N).
+Proof. exact renumber_dense. Qed.
+
+(* (3) "from 1": renumber_objects() is the start = 1 instance, and it fits unless there are 2^32 objects *)
+Theorem C10_renumber_objects :
+  forall d, renumber_objects d = renumber_objects_with 1 d /\
+            (fits 1 d <-> (N.of_nat (length (d_objects (base d))) <= 4294967295)%N).
+Proof. intro d. split; [apply renumber_objects_is_with_1 | apply fits_1]. Qed.
+
+(* (4) The u32 hypothesis is a domain restriction, not a weakening: when the numbers do not fit the call
+   panics (repaired code: an `expect` with a message instead of an arithmetic overflow). *)
+Theorem C10_fits_necessary :
+  forall start d,
+    sorted_keys (d_objects (base d)) -> (start <= U32_MAX)%N -> d_objects (base d) <> [] -> ~ fits start d ->
+    renumber_objects_with start d = Panic.
+Proof. exact renumber_panics. Qed.
+
+(* (5) The known class, in words; closed documents (every reachable reference and bookmark target names an
+   object) are outside it for every start value. *)
+Theorem C10_KnownClass_spec :
+  forall start d,
+    KnownClass start d = true <->
+    exists x, (reach (d_trailer (base d)) (d_objects (base d)) x \/ In x (bm_targets d)) /\
+              ~ has_obj (d_objects (base d)) x /\
+              (start <= fst x < start + N.of_nat (length (d_objects (base d))))%N.
+Proof. exact KnownClass_spec. Qed.
+
+Theorem C10_closed_outside_class :
+  forall start d,
+    closed (d_trailer (base d)) (d_objects (base d)) -> (forall x, In x (bm_targets d) -> has_obj (d_objects (base d)) x) ->
+    KnownClass start d = false.
+Proof. exact closed_not_known. Qed.
+
+(* (6) KnownClass_witness: the property FAILS inside the class (open finding C10/dangling-in-range).  Objects
+   {1,2,3,4,9}, the catalog holds the dangling `5 0 R`: renumbering leaves it as `5 0 R`, and number 5 is
+   given to old object 9, so a reference that resolved to nothing now resolves to an object. *)
+Theorem C10_KnownClass_witness :
+  exists d', renumber_objects_with 1 ex_dangling = Done d' /\
+    KnownClass 1 ex_dangling = true /\
+    reach (d_trailer (base ex_dangling)) (d_objects (base ex_dangling)) (5, 0)%N /\
+    lookup (d_objects (base ex_dangling)) (5, 0)%N = None /\
+    holds_ref (d_objects (base ex_dangling)) (1, 0)%N (bs "Gone") = Some (ORef 5 0) /\
+    holds_ref (d_objects (base d')) (1, 0)%N (bs "Gone") = Some (ORef 5 0) /\
+    lookup (d_objects (base d')) (5, 0)%N = lookup (d_objects (base ex_dangling)) (9, 0)%N /\
+    lookup (d_objects (base d')) (5, 0)%N <> None.
+Proof. exact dangling_refuted. Qed.
+
+(* (7) The mechanism named in the anchors: traverse_objects terminates within trav_fuel (the out-of-fuel value
+   is never produced), visits exactly the ids reachable along renamed references, each once, and applies
+   the action to every reference of the trailer and of each visited object exactly once. *)
+Theorem C10_traverse_once :
+  forall f tr m fuel,
+    trav_fuel tr m <= fuel ->
+    exists m' refs,
+      traverse_objects f fuel tr m = Some (rename_dict f tr, m', refs) /\
+      NoDup refs /\
+      (forall x, In x refs <-> reachf f tr m x) /\
+      map fst m' = map fst m /\
+      (forall x, reachf f tr m x -> lookup m' x = option_map (rename f) (lookup m x)) /\
+      (forall x, ~ reachf f tr m x -> lookup m' x = lookup m x).
+Proof. exact traverse_spec. Qed.
+
+(* (8) non-vacuity of (1)/(2): a document with two pages out of id order (so that the page-order pass runs), a
+   non-zero generation, bookmarks, an unreachable object and a dangling reference OUTSIDE the new range
+   (the document is not closed) meets the hypotheses; both passes do work. *)
+Theorem C10_example :
+  sorted_keys (d_objects (base ex_swap)) /\ fits 1 ex_swap /\ KnownClass 1 ex_swap = false /\
+  ~ closed (d_trailer (base ex_swap)) (d_objects (base ex_swap)) /\
+  page_iter (base ex_swap) = [(8,1); (3,0)]%N /\
+  exists d', renumber_objects_with 1 ex_swap = Done d' /\
+    map fst (d_objects (base d')) = [(1,0); (2,0); (3,0); (4,0); (5,1)]%N /\
+    page_iter (base d') = [(3,0); (5,1)]%N /\
+    bm_targets d' = [(3,0); (5,1); (5,1)]%N /\
+    lookup (d_objects (base d')) (77,0)%N = None /\
+    d_max_id (base d') = 5%N.
+Proof. exact ex_swap_main. Qed.
+
+(* (9) The property was REFUTED on the pinned code (model RenumberV0, validated against the pinned crate before
+   the repairs; each theorem also shows the repaired model on the same input).
+   (9a) fixed d448977: bookmark targets renamed one pair at a time -- after a swap of two pages all three
+        bookmarks name the same page *)
+Theorem C10_bookmarks_v0_refuted :
+  exists d0 d1, renumber_objects_with_v0 1 ex_swap0 = Done d0 /\ renumber_objects_with 1 ex_swap0 = Done d1 /\
+    map (fun kb => bm_page (snd kb)) (bm_table ex_swap0) = [(5,0); (3,0); (3,0)]%N /\
+    map (fun kb => bm_page (snd kb)) (bm_table d0) = [(4,0); (4,0); (4,0)]%N /\
+    map (fun kb => bm_page (snd kb)) (bm_table d1) = [(3,0); (4,0); (4,0)]%N /\
+    page_iter (base d1) = [(3,0); (4,0)]%N.
+Proof. exact bookmarks_v0_refuted. Qed.
+
+(* (9b) fixed 96237ff: a page listed twice -- an object is lost *)
+Theorem C10_page_twice_v0_refuted :
+  exists d0 d1, renumber_objects_with_v0 1 ex_twice = Done d0 /\ renumber_objects_with 1 ex_twice = Done d1 /\
+    length (d_objects (base ex_twice)) = 4 /\ length (d_objects (base d0)) = 3 /\ length (d_objects (base d1)) = 4.
+Proof. exact page_twice_v0_refuted. Qed.
+
+(* (9c) fixed 280c026: pages of different generations collide -- an object is lost *)
+Theorem C10_page_generations_v0_refuted :
+  exists d0 d1, renumber_objects_with_v0 1 ex_gens = Done d0 /\ renumber_objects_with 1 ex_gens = Done d1 /\
+    length (d_objects (base ex_gens)) = 6 /\ length (d_objects (base d0)) = 5 /\ length (d_objects (base d1)) = 6.
+Proof. exact page_generations_v0_refuted. Qed.
+
+(* (9d) fixed 4a66b94: start 0 on a document without objects, and assigning u32::MAX, panicked *)
+Theorem C10_u32_v0_refuted :
+  renumber_objects_with_v0 0 ex_empty = Panic /\
+  renumber_objects_with_v0 4294967295 ex_one = Panic /\
+  (exists d', renumber_objects_with 0 ex_empty = Done d' /\ d_max_id (base d') = 0%N) /\
+  (exists d', renumber_objects_with 4294967295 ex_one = Done d' /\
+              map fst (d_objects (base d')) = [(4294967295, 0)]%N /\ d_max_id (base d') = 4294967295%N).
+Proof. exact u32_v0_refuted. Qed.
+
+Print Assumptions C10_renumber_iso.
+Print Assumptions C10_renumber_dense.
+Print Assumptions C10_renumber_objects.
+Print Assumptions C10_fits_necessary.
+Print Assumptions C10_KnownClass_spec.
+Print Assumptions C10_closed_outside_class.
+Print Assumptions C10_KnownClass_witness.
+Print Assumptions C10_traverse_once.
+Print Assumptions C10_example.
+Print Assumptions C10_bookmarks_v0_refuted.
+Print Assumptions C10_page_twice_v0_refuted.
+Print Assumptions C10_page_generations_v0_refuted.
+Print Assumptions C10_u32_v0_refuted.
